@@ -12,6 +12,11 @@ so every distinct C source is compiled by exactly one worker):
               {q, x_1..x_k, 1.5} with operators {a+b, a*b, 1/(1+a^2), exp(-a^2)} (commutative operands
               unordered) that mentions q and every parameter; form_volume = sum_k k*v_k if volume
               parameters exist
+  L "intlit": one program per C99 math function (28: sin..atanh, atan2, erf, erfc, tgamma, exp, exp2, expm1, log, log2,
+              log10, log1p, pow, sqrt, fabs, fmax, fmin) whose Iq sums calls with INTEGER LITERAL arguments - negative,
+              positive, explicitly signed "+3", zero - inside the function's domain, as first argument, as second
+              argument and as both; form_volume and radius_effective (c_code) contain such calls too; the Python twin
+              and the direct evaluation use the same values
   T "table4": every table of length 4 with the canonical Iq = sum_i (1+i/2)*g_i(q*x_i), g alternating
               exp(-x^2), 1/(1+x^2)
   F "feature": base tables (length 1..3) with the canonical Iq, every combination of <= D feature
@@ -28,8 +33,11 @@ so every distinct C source is compiled by exactly one worker):
               optionally one vector parameter t (volume | plain; t[2] | t[3] | t[n] with the control n before or
               after it) at every position before the angles, then theta, phi (Iqac) or theta, phi, psi (Iqabc);
               Iqac / Iqabc are closed forms of (qab, qc) / (qa, qb, qc) and every parameter.  Inputs: four view-angle
-              sets, dispersity on r and on t1, off-nominal values, 2-D q in all four quadrants (plus the 1-D call).
-              Oracle: (qa,qb,qc) = (qx,qy,0) . Rz(phi) Ry(theta) Rz(psi) (the documented view rotation, no jitter),
+              sets incl. (0,0,0), dispersity on r and on t1, orientation dispersity (jitter) on every non-empty subset
+              of the angles (theta, phi, psi, theta+phi, theta+psi, phi+psi, all three; different point counts),
+              off-nominal values, 2-D q in all four quadrants (plus the 1-D call).
+              Oracle: (qa,qb,qc) = (qx,qy,0) . Rz(phi) Ry(theta) Rz(psi) Rx(dphi) Ry(dtheta) Rz(dpsi) (documented view
+              rotation and jitter about the particle axes), mesh weights w*|cos(dtheta)|,
               the closed form evaluated in numpy, C01 reference mean.
   S "same-name": two / three DIFFERENT definitions written to files with the SAME basename in different
               directories (flavour combinations c/c, c/py, py/c, py/py, c/py/c; modification times equal /
@@ -217,6 +225,42 @@ def feat_label(f):
     return "+".join(out) if out else "plain"
 
 
+# ---- integer literals as arguments of C99 math functions (the type-generic-math promotion of convert_type rewrites
+# them): every function of plugin_gen.MATH_FUNCTIONS, signed / unsigned / explicitly positive literals inside the
+# function's domain, in first and in second position, and in both.
+_ANY = ["-2", "2", "+3", "0", "-1"]
+INT_ARGS_1 = dict({f: _ANY for f in ("sin", "cos", "tan", "atan", "sinh", "cosh", "tanh", "asinh", "erf", "erfc", "exp",
+                                     "exp2", "expm1", "fabs")},
+                  asin=["-1", "0", "1", "+1"], acos=["-1", "0", "1", "+1"], atanh=["0", "-0"],
+                  acosh=["1", "2", "+3"], tgamma=["2", "+3", "5"], log=["2", "+3", "10", "1"],
+                  log2=["2", "+3", "10", "1"], log10=["2", "+3", "10", "1"], log1p=["2", "0", "+3"],
+                  sqrt=["2", "0", "+3", "4"])
+INT_ARGS_2 = {   # (literals as first argument, literals as second argument, (first, second) literal pairs)
+    "pow": (["2", "+3", "0"], _ANY, [["-2", "3"], ["2", "-2"], ["-1", "2"]]),
+    "atan2": (_ANY, _ANY, [["-1", "-2"], ["+3", "-1"]]),
+    "fmin": (_ANY, _ANY, [["-2", "-1"], ["2", "-2"]]),
+    "fmax": (_ANY, _ANY, [["-2", "-1"], ["2", "-2"]]),
+}
+INT_FUNCTIONS = sorted(INT_ARGS_1) + sorted(INT_ARGS_2)
+
+
+def intlit_spec(fn):
+    """table r1 (volume), b2 (plain); Iq, form_volume and radius_effective all contain integer-literal math calls"""
+    spec = make_spec("vp", None, {"reff": True})
+    x = ["mul", ["q"], ["p", "b2"]]
+    if fn in INT_ARGS_1:
+        calls = [["call", fn, ["i", t]] for t in INT_ARGS_1[fn]]
+    else:
+        first, second, both = INT_ARGS_2[fn]
+        calls = ([["call", fn, ["i", t], x] for t in first] + [["call", fn, x, ["i", t]] for t in second]
+                 + [["call", fn, ["i", a], ["i", b]] for a, b in both])
+    spec["iq"] = ["add", spec["iq"], G.lincomb(calls, 0.25, 0.125)]
+    spec["volume"] = ["add", spec["volume"], ["add", ["call", "fabs", ["i", "-3"]], ["call", "exp", ["i", "-2"]]]]
+    spec["reff"] = [["add", spec["reff"][0], ["call", "fmin", ["i", "-3"], ["p", "r1"]]],
+                    ["add", spec["reff"][1], ["call", "atan2", ["i", "-1"], ["p", "r1"]]]]
+    return spec
+
+
 def type_strings(k):
     return ["".join(t) for t in itertools.product("pvs", repeat=k)]
 
@@ -245,6 +289,9 @@ def cases(ctx):
             else:
                 for ts in tstr:
                     out.append({"kind": "pair", "family": "expr", "types": ts, "tree": tree})
+    # ---- L: integer literal arguments of math functions (one program per function, all its literal/position variants)
+    for fn in INT_FUNCTIONS:
+        out.append({"kind": "pair", "family": "intlit", "types": "vp", "fn": fn})
     # ---- T: four-parameter tables
     for ts in type_strings(4):
         if ctx.quick and "s" in ts:
@@ -393,6 +440,9 @@ def _run_pair(case, ctx):
     feats = case.get("feats") or {}
     spec = make_spec(case["types"], case.get("tree"), feats)
     label = feat_label(feats) if case["family"] != "expr" else "expr"
+    if case["family"] == "intlit":
+        spec = intlit_spec(case["fn"])
+        label = "intlit-" + case["fn"]
     name = "vg%s" % case_id(case)
     paths = G.write_pair(spec, ctx.scratch, name)
     fk0 = {"family": case["family"], "feature": label}
@@ -817,10 +867,15 @@ def write_oriented(spec, scratch, name):
     return path
 
 
+JITTER = {"theta": ["uniform", 3, 20.0], "phi": ["uniform", 2, 15.0], "psi": ["gaussian", 3, 12.0]}
+
+
 def _rot(axis, deg):
     c, s = np.cos(np.radians(deg)), np.sin(np.radians(deg))
     if axis == "z":
         return np.array([[c, -s, 0], [s, c, 0], [0, 0, 1]], float)
+    if axis == "x":
+        return np.array([[1, 0, 0], [0, c, -s], [0, s, c]], float)
     return np.array([[c, 0, s], [0, 1, 0], [-s, 0, c]], float)
 
 
@@ -839,6 +894,8 @@ def oriented_point(spec, vals, Q, dim):
         Q = np.asarray(Q, float)
         psi = vals["psi"] if spec["sym"] == "abc" else 0.0
         V = _rot("z", vals["phi"]) @ _rot("y", vals["theta"]) @ _rot("z", psi)
+        # orientation dispersity: jitter about the particle axes, R = V Rx(dphi) Ry(dtheta) Rz(dpsi)
+        V = V @ _rot("x", vals.get("dphi", 0.0)) @ _rot("y", vals.get("dtheta", 0.0)) @ _rot("z", vals.get("dpsi", 0.0))
         q3 = np.zeros((len(Q), 3))
         q3[:, :2] = Q
         qabc = q3 @ V
@@ -846,7 +903,10 @@ def oriented_point(spec, vals, Q, dim):
         env["qab"] = np.sqrt(qabc[:, 0] ** 2 + qabc[:, 1] ** 2)
         F2 = G.evaluate(spec["i2d"], env)
     form = float(G.evaluate(spec["volume"], env))
-    return {"F2": np.asarray(F2, float), "F1": None, "form": form, "shell": form, "reff": 0.0}
+    out = {"F2": np.asarray(F2, float), "F1": None, "form": form, "shell": form, "reff": 0.0}
+    if dim == "2d":
+        out["wfactor"] = abs(float(np.cos(np.radians(vals.get("dtheta", 0.0)))))    # equirectangular projection
+    return out
 
 
 def _run_oriented(case, ctx):
@@ -875,6 +935,8 @@ def _run_oriented(case, ctx):
     if case["vec"] and case["vtype"] == "volume":
         dims.append(("pd:t1", None, PD_ALTS[1:2]))
     dims.append(("q", "2d", ["1d"]))
+    angs = ["theta", "phi"] + (["psi"] if case["sym"] == "abc" else [])
+    dims.append(("jitter", None, [list(c) for n in range(1, len(angs) + 1) for c in itertools.combinations(angs, n)]))
     for ndev, cfg in deviations(dims, 2):
         dim = cfg["q"]
         vals = {}
@@ -895,14 +957,23 @@ def _run_oriented(case, ctx):
                 t, n, w = alt
                 pars[nm + "_pd"], pars[nm + "_pd_n"], pars[nm + "_pd_type"] = w, n, t
                 disp[nm] = refmodel.par_dist(cpars[nm], t, n, w, 3.0, vals[nm])
+        for a in (cfg["jitter"] or []):
+            t, n, w = JITTER[a]
+            pars[a + "_pd"], pars[a + "_pd_n"], pars[a + "_pd_type"] = w, n, t
+            if dim == "2d":           # orientation dispersity does not exist in 1-D
+                disp["d" + a] = refmodel.par_dist(cpars[a], t, n, w, 3.0, vals[a])
         Q = Q1 if dim == "1d" else Q2O
         ref = G.mean_from_points(lambda pt: oriented_point(spec, pt, Q, dim), len(Q),
                                  dict(vals, scale=SCALE, background=BACKGROUND), disp, 0.0)
         br = ["oriented-dim:" + dim]
         if dim == "2d" and cfg["angles"]:
             br.append("oriented-nondefault-angles")
-        if disp:
+        if any(k in disp for k in ("r", "t1")):
             br.append("oriented-dispersed")
+        if dim == "2d" and cfg["jitter"]:
+            br.append("oriented-jitter:" + "+".join(cfg["jitter"]))
+            if "theta" in cfg["jitter"] and "phi" in cfg["jitter"]:
+                br.append("oriented-jitter-theta-and-phi")
         desc = "definition below; call: %s q=%s pars=%s" % (dim, Q, pars)
         try:
             with np.errstate(all="ignore"):
@@ -912,7 +983,7 @@ def _run_oriented(case, ctx):
             continue
         ok, err = refmodel.close(got, ref["I"], ref["mag"], rtol=1e-11)
         if not ok:
-            r.fail("%s\n  C kernel %s\n  formula at (qa,qb,qc) = (qx,qy,0).Rz(phi)Ry(theta)Rz(psi): %s\n%s"
+            r.fail("%s\n  C kernel %s\n  formula at (qa,qb,qc) = (qx,qy,0).Rz(phi)Ry(theta)Rz(psi)Rx(dphi)Ry(dtheta)Rz(dpsi), weights w*|cos(dtheta)|: %s\n%s"
                    % (desc, np.asarray(got), ref["I"], open(path).read()), dict(fk0, input=dim), sub={"cfg": cfg},
                    nt=True, branches=br)
             continue
@@ -1034,6 +1105,7 @@ def finish(ctx, report):
     report.coverage = {"programs": int(report.extra.get("programs", 0))}
     report.require("family:expr", 100, "expression-tree programs")
     report.require("family:table4", 10, "four-parameter tables")
+    report.require("family:intlit", len(INT_FUNCTIONS), "integer-literal math-call programs")
     report.require("family:feature", 50, "feature programs")
     for f in ("vector-ctl-last", "vector-ctl-first", "vector-fix", "shell", "reff", "valid", "iqxy", "sld",
               "no-volume-parameter-volume", "no-volume-parameter-reff"):
@@ -1062,6 +1134,9 @@ def finish(ctx, report):
         report.require("oriented-dim:2d", 500, "2-D evaluations of oriented definitions")
         report.require("oriented-nondefault-angles", 300, "non-default view angles")
         report.require("oriented-dispersed", 200, "size dispersity in oriented definitions")
+        for j in ("theta", "phi", "psi", "theta+phi", "theta+psi", "phi+psi", "theta+phi+psi"):
+            report.require("oriented-jitter:" + j, 50, "orientation dispersity on " + j)
+        report.require("oriented-jitter-theta-and-phi", 200, "mesh points with both dtheta and dphi non-zero")
     report.require("same-name:2-files", 12, "two files with the same basename")
     report.require("same-name:3-files", 3, "three files with the same basename")
     report.require("same-name-sequence", 45, "load/evaluate sequences over same-named files")
